@@ -25,6 +25,7 @@ import (
 var errA = errors.New("errA")
 var errB = errors.New("errB")
 var errFB = errors.New("fallback-error")
+var errC = errors.New("errC") // never produced: second target of the variadic HandleErrors / AbortOnErrors registrations
 
 const (
 	kRetry = iota
@@ -113,6 +114,15 @@ func fails(h int, o outcome) bool {
 		}
 		return o.v == -1
 	}
+}
+
+// fbResult is the fixed result of a WithResult fallback: under HandleResult(-1) it is the handled value itself, i.e. a
+// fallback output that carries no error but is still a failure by the fallback's own conditions.
+func fbResult(handle int) int {
+	if handle == hResult {
+		return -1
+	}
+	return 77
 }
 
 // memCache is the instrumented user cache.
@@ -227,7 +237,7 @@ func (w *world) build() []failsafe.Policy[int] {
 			}
 			switch c.handle {
 			case hErrA:
-				b = b.HandleErrors(errA)
+				b = b.HandleErrors(errA, errC)
 			case hResult:
 				b = b.HandleResult(-1)
 			}
@@ -235,7 +245,7 @@ func (w *world) build() []failsafe.Policy[int] {
 				b = b.ReturnLastFailure()
 			}
 			if c.abortOnB {
-				b = b.AbortOnErrors(errB)
+				b = b.AbortOnErrors(errB, errC)
 			}
 			if c.delayFn {
 				b = b.WithDelayFunc(func(exec failsafe.ExecutionAttempt[int]) time.Duration {
@@ -254,7 +264,7 @@ func (w *world) build() []failsafe.Policy[int] {
 			b := circuitbreaker.Builder[int]().WithFailureThreshold(c.threshold)
 			switch c.handle {
 			case hErrA:
-				b = b.HandleErrors(errA)
+				b = b.HandleErrors(errA, errC)
 			case hResult:
 				b = b.HandleResult(-1)
 			}
@@ -271,7 +281,7 @@ func (w *world) build() []failsafe.Policy[int] {
 			var b fallback.FallbackBuilder[int]
 			switch c.fbKind {
 			case 0:
-				b = fallback.BuilderWithResult(77)
+				b = fallback.BuilderWithResult(fbResult(c.handle))
 			case 1:
 				b = fallback.BuilderWithError[int](errFB)
 			default:
@@ -283,7 +293,7 @@ func (w *world) build() []failsafe.Policy[int] {
 			}
 			switch c.handle {
 			case hErrA:
-				b = b.HandleErrors(errA)
+				b = b.HandleErrors(errA, errC)
 			case hResult:
 				b = b.HandleResult(-1)
 			}
@@ -432,7 +442,7 @@ func (w *world) refLayer(li int, x *refExec) refRes {
 		var fo outcome
 		switch c.fbKind {
 		case 0:
-			fo = outcome{77, nil}
+			fo = outcome{fbResult(c.handle), nil}
 		case 1:
 			fo = outcome{0, errFB}
 		default:
